@@ -73,12 +73,22 @@ def _draw(name, pc, tc, n, aux):
     if name in ("onsite", "global", "brickwall"):
         circ, direction, start = aux
         s = pc.zero_state(n) if start == "zero" else pc.one_state(n)
-        getattr(circ, direction)(s)
+        if direction == "alternate":
+            # forward then backward of the same random object: two independent draws, so the
+            # composition is again uniform (an object that "undoes" its last draw gives identity)
+            circ.forward(s)
+            circ.backward(s)
+        else:
+            getattr(circ, direction)(s)
         return ("state", _np(s.gs), _np(s.ps), s.r)
     if name == "gate":
         gate, direction = aux
         lst = sut.mk_list(rm.identity_images(n))
-        getattr(gate, direction)(lst)
+        if direction == "alternate":
+            gate.forward(lst)
+            gate.backward(lst)
+        else:
+            getattr(gate, direction)(lst)
         return ("table", _np(lst.gs), _np(lst.ps), False)
     if name == "coin":
         s = pc.maximally_mixed_state(n)
@@ -130,12 +140,12 @@ def gen_config(rng, tier):
     if sampler in ("rcs", "rps", "t:rcs", "t:rps"):
         cfg["r"] = rng.choice([None, 0, 0, 0] + list(range(n + 1))) if n != 2 else rng.choice([None, 0])
     if sampler in ("onsite", "global", "brickwall"):
-        cfg["dir"] = rng.choice(["forward", "backward"])
+        cfg["dir"] = rng.choice(["forward", "backward", "alternate"])
         cfg["start"] = rng.choice(["zero", "zero", "one"])
         cfg["depth"] = rng.randrange(1, 4)
         cfg["steps"] = 200
     if sampler == "gate":
-        cfg["dir"] = rng.choice(["forward", "backward"])
+        cfg["dir"] = rng.choice(["forward", "backward", "alternate"])
         cfg["steps"] = 200
     if sampler in ("gate", "onsite", "global", "brickwall"):
         # fault / configuration injected before the draws: the object is copied, or a compile()
@@ -184,7 +194,7 @@ class RunClass(Run):
                     self.stats["rejected_op"] += 1
             elif prep == "other_direction_first":
                 seams.seed_all(12345)
-                other = "backward" if self.aux[1] == "forward" else "forward"
+                other = "backward" if self.aux[1] in ("forward", "alternate") else "forward"
                 getattr(obj, other)(pc.zero_state(n) if s != "gate" else sut.mk_list(rm.identity_images(n)))
             self.aux = (obj,) + tuple(self.aux[1:])
             self.stats["config:prep_" + prep] += 1
